@@ -112,7 +112,7 @@ def tracker_engine(chk, quick):
         kind = ("sort", "visual", "batchsort")[i % 3]
         t0 = r2.record(chk, f"c20-r2-{i}-free", kind, chk.seed * 1000 + 500 + i, steps=150 if quick else 300, shards=1 + i % 3,
                        metric="iou" if i % 2 == 0 else "maha", max_idle=3, objects=4, spread=(60, 120)[i % 2], extra=["--jump", "1"])
-        if r2.validate_all(chk, [t0], "C02")[0][0]:
+        if r2.validate_all(chk, [t0], "none")[0][0]:
             chk.violation("c20:admissible-pair-not-used", {"engine": "r2-trace", "trace": str(traces[i]), "rejected": rej[:3000]})
     # non-binding table vs no table: identical records and ids
     for i in range(2 if quick else 20):
